@@ -21,7 +21,7 @@
 (*     |{senders of type-k messages in the history}| = |operating| - 1     *)
 (* Initiate of a consuming state feeds the (first per sender) type-(k-1)   *)
 (* messages to the TSS party; that fails unless they come from exactly the *)
-(* party's peers, were built for the same party context and session.       *)
+(* party's peers in the same session and (round two) address the member.   *)
 (*                                                                         *)
 (* Executor.Execute marks the attempt's excluded members as disqualified   *)
 (* (never the member itself), so an excluded member that runs nevertheless *)
@@ -83,12 +83,11 @@ VARIABLES
     nadm,       \* i -> number of ReceiveToHistory calls (duplicates are appended too)
     consumed,   \* i -> messages fed to the TSS party so far
     net,        \* protocol messages sent so far
-    seen,       \* i -> messages of net already handed to i once
     key,        \* i -> what the member's key share was derived from (done members)
     mis,        \* i -> misbehaved members of the result
     nForged, nDup
 
-vars == <<status, cur, inited, hist, nadm, consumed, net, seen, key, mis, nForged, nDup>>
+vars == <<status, cur, inited, hist, nadm, consumed, net, key, mis, nForged, nDup>>
 
 Init ==
     /\ status = [i \in Members |-> "idle"]
@@ -97,7 +96,7 @@ Init ==
     /\ hist = [i \in Members |-> {}]
     /\ nadm = [i \in Members |-> 0]
     /\ consumed = [i \in Members |-> {}]
-    /\ net = {} /\ seen = [i \in Members |-> {}]
+    /\ net = {}
     /\ key = [i \in Members |-> {}] /\ mis = [i \in Members |-> {}]
     /\ nForged = 0 /\ nDup = 0
 
@@ -118,20 +117,22 @@ CanTransition(i) ==
 
 \* the TSS party of i accepts exactly one message per peer, built for the
 \* same party context in the same session, under the peer's own key
-\* (ephemeral public key messages -- type 1 -- carry a key for every seat of
-\* the group and do not depend on the party context)
+\* (only the round-two messages -- type 4 -- carry point-to-point parts, one
+\* per member of the SENDER's party context: protocol.go tssRoundThree fails
+\* with "no P2P part" for a receiver outside that context; ephemeral public
+\* key messages carry a key for every seat of the group)
 Consumable(i, M) ==
     /\ {m.s : m \in M} = View(i) \ {i}
     /\ Cardinality(M) = Cardinality(View(i)) - 1
     /\ \A m \in M : /\ m.ses = "cur" /\ m.k = m.s
-                     /\ m.t # 1 => m.ctx = View(i)
+                     /\ m.t = 4 => i \in m.ctx
 
 ---------------------------------------------------------------------------
 \* Executor.Execute: newMember, marking loop, machine started
 Start(i) ==
     /\ i \in Runners /\ status[i] = "idle"
     /\ status' = [status EXCEPT ![i] = "running"]
-    /\ UNCHANGED <<cur, inited, hist, nadm, consumed, net, seen, key, mis, nForged, nDup>>
+    /\ UNCHANGED <<cur, inited, hist, nadm, consumed, net, key, mis, nForged, nDup>>
 DoStart == \E i \in Members : Start(i)
 
 \* asyncStateTransition: Initiate(ctx) of the current state
@@ -146,7 +147,7 @@ Initiate(i) ==
                  /\ consumed' = [consumed EXCEPT ![i] = IF c # 0 THEN @ \cup OfType(i, c) ELSE @]
                  /\ net' = IF k \in MsgTypes THEN net \cup {Genuine(k, i)} ELSE net
                  /\ UNCHANGED status
-    /\ UNCHANGED <<cur, hist, nadm, seen, key, mis, nForged, nDup>>
+    /\ UNCHANGED <<cur, hist, nadm, key, mis, nForged, nDup>>
 DoInitiate == \E i \in Members : Initiate(i)
 
 \* ticker: CanTransition() true -> Next()
@@ -154,7 +155,7 @@ Transition(i) ==
     /\ status[i] = "running" /\ inited[i] /\ CanTransition(i) /\ cur[i] < 6
     /\ cur' = [cur EXCEPT ![i] = @ + 1]
     /\ inited' = [inited EXCEPT ![i] = FALSE]
-    /\ UNCHANGED <<status, hist, nadm, consumed, net, seen, key, mis, nForged, nDup>>
+    /\ UNCHANGED <<status, hist, nadm, consumed, net, key, mis, nForged, nDup>>
 DoTransition == \E i \in Members : Transition(i)
 
 \* the final state's Next() is nil: Execute returns finalizationState.result()
@@ -163,7 +164,7 @@ Finish(i) ==
     /\ status' = [status EXCEPT ![i] = "done"]
     /\ key' = [key EXCEPT ![i] = consumed[i] \cup {Genuine(t, i) : t \in {1, 3, 4, 5}}]
     /\ mis' = [mis EXCEPT ![i] = Members \ View(i)]       \* Result.MisbehavedMembersIndexes
-    /\ UNCHANGED <<cur, inited, hist, nadm, consumed, net, seen, nForged, nDup>>
+    /\ UNCHANGED <<cur, inited, hist, nadm, consumed, net, nForged, nDup>>
 DoFinish == \E i \in Members : Finish(i)
 
 \* the machine hands a message to the current state's Receive
@@ -171,20 +172,21 @@ Receive(i, m) ==
     /\ hist' = [hist EXCEPT ![i] = IF Admit(i, m) THEN @ \cup {m} ELSE @]
     /\ nadm' = [nadm EXCEPT ![i] = IF Admit(i, m) THEN @ + 1 ELSE @]
 
-\* first delivery of a sent message (own messages are echoed to the sender too)
+\* delivery of a sent message; the channel echoes a member's own messages to
+\* it as well, and a running excluded member's messages reach everybody
+\* (deliveries of messages the receiver rejects leave the state unchanged)
 Deliver(i, m) ==
-    /\ status[i] = "running" /\ m \in net \ seen[i]
+    /\ status[i] = "running" /\ m \in net \ hist[i]
     /\ Receive(i, m)
-    /\ seen' = [seen EXCEPT ![i] = @ \cup {m}]
     /\ UNCHANGED <<status, cur, inited, consumed, net, key, mis, nForged, nDup>>
 DoDeliver == \E i \in Members : \E m \in net : Deliver(i, m)
 
-\* retransmission / duplicate of a message i was already handed
+\* retransmission / duplicate of a message that is already in the history
 DeliverDup(i, m) ==
-    /\ status[i] = "running" /\ m \in seen[i] /\ nDup < MaxDup
+    /\ status[i] = "running" /\ m \in hist[i] /\ nDup < MaxDup
     /\ Receive(i, m)
     /\ nDup' = nDup + 1
-    /\ UNCHANGED <<status, cur, inited, consumed, net, seen, key, mis, nForged>>
+    /\ UNCHANGED <<status, cur, inited, consumed, net, key, mis, nForged>>
 DoDeliverDup == \E i \in Members : \E m \in net : DeliverDup(i, m)
 
 \* injected message
@@ -193,7 +195,7 @@ DeliverForged(i, m) ==
     /\ m \in Forged(i)
     /\ Receive(i, m)
     /\ nForged' = nForged + 1
-    /\ UNCHANGED <<status, cur, inited, consumed, net, seen, key, mis, nDup>>
+    /\ UNCHANGED <<status, cur, inited, consumed, net, key, mis, nDup>>
 DoDeliverForged == \E i \in Members : \E m \in Forged(i) : DeliverForged(i, m)
 
 Next == DoStart \/ DoInitiate \/ DoTransition \/ DoFinish \/ DoDeliver \/ DoDeliverDup \/ DoDeliverForged
@@ -228,7 +230,12 @@ TransitionSound ==
 
 \* what a member feeds to its TSS party comes from the operating members only
 ConsumedClean ==
-    \A i \in Operating : \A m \in consumed[i] : m.s \in Operating /\ m.ses = "cur" /\ m.ctx = Operating
+    \A i \in Operating : \A m \in consumed[i] : m.s \in Operating /\ m.ses = "cur" /\ m.ctx = Operating /\ m \in net
+
+\* an excluded member that runs gets as far as round three and fails there
+IntruderFailsAtRoundThree ==
+    \A e \in Intruders : /\ status[e] = "failed" => cur[e] = 5
+                          /\ cur[e] <= 5
 
 \* C07: operating members that complete agree on the key and on the
 \* misbehaved list, and the excluded members are listed
